@@ -131,7 +131,7 @@ Theorem C04_app_judgement_transfer : forall sc t, JudgeC04P.profile_C04b sc = tr
 Proof. exact JudgeC04P.C04_app_judgement_transfer. Qed.
 
 
-(* ---- source tie (DESIGN 11.8): definitions REGENERATED from the Rust source text by bin/rs2v.py on every run
+(* ---- source tie (DESIGN 11.7): definitions REGENERATED from the Rust source text by bin/rs2v.py on every run
    (coq/Generated/*.v) coincide with the hand-written model ---- *)
 From BEI Require Generated.ValueSrc Generated.EventsSrc Generated.TrackerSrc Proofs.SrcTieP.
 Theorem C04_source_combine : forall t o acc, SrcTieP.teq (TrackerSrc.combine_src t o acc) (Tracker.tr_combine t o acc).
